@@ -149,14 +149,45 @@ Lemma sections_deterministic l1 l2 s w : Permutation l1 l2 -> get w (run_section
 Proof. intro H. rewrite !get_run_sections. rewrite (sum_perm w l1 l2 H). reflexivity. Qed.
 
 (* interleavings of two threads are permutations of their concatenation *)
-Inductive interleave {A} : list A -> list A -> list A -> Prop :=
-| il_nil : interleave [] [] []
-| il_l x a b c : interleave a b c -> interleave (x :: a) b (x :: c)
-| il_r x a b c : interleave a b c -> interleave a (x :: b) (x :: c).
 Lemma interleave_perm {A} (a b c : list A) : interleave a b c -> Permutation (a ++ b) c.
 Proof.
   induction 1; cbn.
   - constructor.
   - constructor. assumption.
   - eapply Permutation_trans; [apply Permutation_sym, Permutation_middle|]. constructor. assumption.
+Qed.
+
+(* ---- the start-up read of the launcher's scope table (old code) breaks the statement *)
+Definition sp0 : table := [7; 1; 0].
+Definition startup_schedule : list (tid * act) := [(P, Write sp0); (C, Read sp0)].
+Lemma startup_races :
+  raced (run (fork_state_new [[0]] cap0) startup_schedule) = true /\ well_scoped sc0 startup_schedule = false.
+Proof. vm_compute. split; reflexivity. Qed.
+
+Lemma statement_old_refuted : ~ statement_with child_startup_old.
+Proof.
+  intro H.
+  specialize (H sc0 [cap0; [0]; sp0; [8; 1; 0]; []] (fork_state_new [[0]] cap0) sp0 [Write sp0] [] startup_schedule).
+  assert (E : raced (run (fork_state_new [[0]] cap0) startup_schedule) = false).
+  { apply H; try (vm_compute; reflexivity).
+    - vm_compute. auto.
+    - intros e He. vm_compute in He. destruct He as [<-|[<-|[]]]; vm_compute; auto.
+    - intros t Ht. vm_compute in Ht. destruct Ht as [<-|[<-|[<-|[]]]]; vm_compute; reflexivity.
+    - unfold startup_schedule, tag, child_startup_old. cbn. apply il_l. apply il_r. apply il_nil. }
+  vm_compute in E. discriminate.
+Qed.
+
+Lemma interleave_forallb {A} (f : A -> bool) (a b c : list A) :
+  interleave a b c -> forallb f a = true -> forallb f b = true -> forallb f c = true.
+Proof.
+  induction 1; cbn [forallb]; intros Ha Hb; auto.
+  - apply andb_prop in Ha. destruct Ha as [Hx Ha]. rewrite Hx. cbn. auto.
+  - apply andb_prop in Hb. destruct Hb as [Hx Hb]. rewrite Hx. cbn. auto.
+Qed.
+
+Lemma statement_holds : C08_statement.
+Proof.
+  intros sc U S0 sp ilP ilC il Hd _ _ HU H0 HP HC Hil.
+  eapply run_no_race; eauto.
+  unfold well_scoped in *. eapply interleave_forallb; eauto.
 Qed.
